@@ -292,6 +292,9 @@ buildobj(struct input *input, char *output)
 		ret = spawnphase(&stages[i], &fd, input->name, output, !input->stages);
 		if (ret) {
 			warn("%s: spawn \"%s\": %s", stages[i].name, *(char **)stages[i].cmd.val, strerror(ret));
+			/* nobody is going to read what the previous stage writes */
+			if (fd != -1)
+				close(fd);
 			goto kill;
 		}
 		++npids;
